@@ -1,0 +1,22 @@
+//go:build verif
+
+package commands
+
+import (
+	"context"
+
+	containerd "github.com/containerd/containerd/v2/client"
+	"github.com/containerd/containerd/v2/cmd/ctr/commands/content"
+	"github.com/containerd/containerd/v2/core/remotes"
+)
+
+// VerifPull exposes the rpull command's pull() (label handler selection, prefetch size, pull options) to the C20
+// correspondence harness; the arguments are the values the command line flags would put into rPullConfig.
+func VerifPull(ctx context.Context, client *containerd.Client, ref string, resolver remotes.Resolver,
+	snapshotter string, useContainerdLabels bool) error {
+	return pull(ctx, client, ref, &rPullConfig{
+		FetchConfig:      &content.FetchConfig{Resolver: resolver},
+		snapshotter:      snapshotter,
+		containerdLabels: useContainerdLabels,
+	})
+}
